@@ -122,7 +122,7 @@ pub fn bank_history(seed: u64, i: u64) -> e3_bank::Case {
 }
 
 pub fn bank_transcript(case: &e3_bank::Case) -> Vec<String> {
-    let mut w = e3_bank::World::new();
+    let mut w = e3_bank::World::for_case(case);
     let mut scratch = Report::new();
     let mut t = vec![];
     for op in &case.ops {
